@@ -153,6 +153,23 @@ Proof.
   split; [unfold len; apply N.leb_le in Esl; lia|].
   split; [lia|]. eapply dec_varint_lt; exact E4.
 Qed.
+(* ---------- failover: failed attempts leave the handshake alone ---------- *)
+
+Lemma try_backends_id failed p h : try_backends failed p h = (p, h).
+Proof. unfold try_backends. induction failed as [|x l IH]; [reflexivity|exact IH]. Qed.
+
+(* The stream delivered after k failed attempts equals the stream of a direct connection to the
+   serving backend: every rewrite is applied once, to the client's ORIGINAL handshake, with the serving
+   backend's host. *)
+Theorem failover_rewrites_once mvh r ca now p h rest :
+  failover_stream mvh r ca now p h rest = lite_backend_stream mvh r ca now p h rest.
+Proof. unfold failover_stream. rewrite try_backends_id. reflexivity. Qed.
+
+Theorem failover_status_rewrites_once mvh r ca now p h q :
+  failover_status_stream mvh r ca now p h q =
+  proxy_prefix r ca ++ handshake_frame mvh r ca now (r_cache r) p h ++ frame q.
+Proof. unfold failover_status_stream. rewrite try_backends_id. reflexivity. Qed.
+
 (* ---------- classify on a well-formed client stream ---------- *)
 
 Definition is_forward_state (n : N) : bool := (n =? 2) || (n =? 3).
@@ -185,7 +202,7 @@ Theorem identity_when_no_rewrite mvh r ca now p h extra rest :
   lite_flow mvh r ca now (frame p ++ rest) = FlowForward (proxy_prefix r ca ++ frame p ++ rest).
 Proof.
   intros Hf Hd Hm Hs Hr. unfold lite_flow. rewrite (classify_forward p h extra rest Hf Hd Hm Hs).
-  unfold lite_backend_stream. rewrite handshake_frame_no_rewrite by exact Hr. reflexivity.
+  rewrite failover_rewrites_once. unfold lite_backend_stream. rewrite handshake_frame_no_rewrite by exact Hr. reflexivity.
 Qed.
 
 (* without route options nothing is rewritten, whatever the address *)
@@ -246,7 +263,7 @@ Proof.
   pose proof (dec_handshake_wf p h extra Hw Hd) as (W1 & W2 & W3 & W4).
   split; [|split].
   - unfold lite_flow. rewrite (classify_forward p h extra rest Hf Hd Hm Hs).
-    unfold lite_backend_stream. rewrite handshake_frame_rewrite by (rewrite Hr; reflexivity).
+    rewrite failover_rewrites_once. unfold lite_backend_stream. rewrite handshake_frame_rewrite by (rewrite Hr; reflexivity).
     reflexivity.
   - apply read_frame_frame. split; [apply payload_nonempty|exact Hp].
   - rewrite <- (app_nil_r p'). unfold p'. rewrite dec_enc_handshake; [reflexivity|].
@@ -276,7 +293,7 @@ Theorem status_flow mvh r ca now p h extra q rest0 rest :
 Proof.
   intros Hf Hq Hd Hm Hn Hs ->. unfold lite_flow, classify.
   rewrite next_packet_frame by exact Hf. rewrite Hd, Hm, Hn. cbn [negb N.eqb orb Pos.eqb].
-  rewrite next_packet_frame by exact Hq. rewrite Hs. reflexivity.
+  rewrite next_packet_frame by exact Hq. rewrite Hs. rewrite failover_status_rewrites_once. reflexivity.
 Qed.
 (* ---------- C31_pipe_identity: bufio buffer + pipe ---------- *)
 
@@ -642,3 +659,28 @@ Qed.
 Lemma spec_mvh_empty_host backend addr :
   clear_virtual_host addr = [] -> spec_mvh backend addr = backend ++ addr.
 Proof. intro H. unfold spec_mvh, go_replace_first. rewrite H. reflexivity. Qed.
+
+(* ---------- why failover_rewrites_once matters ---------- *)
+
+(* The regression the theorem excludes: preparing (rewriting + re-encoding) the shared handshake BEFORE
+   each dial, i.e. also for backends whose dial then fails. *)
+Definition eager_step (mvh : bytes -> bytes -> bytes) (r : route) (ca : endpoint) (now : N)
+           (st : bytes * handshake) (host : bytes) : bytes * handshake :=
+  let r' := mkRoute (r_proxy r) (r_mvh r) (r_realip r) (r_cache r) host (r_backend r) [] in
+  let '(p, h) := st in
+  let '(a', changed) := rewrite_address mvh r' ca now (hs_addr h) in
+  (if changed then enc_handshake_payload (set_addr h a') else p, set_addr h a').
+
+Definition shield_addr : bytes :=     (* "a.b///1.2.3.4:5///9" *)
+  [97;46;98;47;47;47;49;46;50;46;51;46;52;58;53;47;47;47;57].
+Definition fo_hs : handshake := mkHs 763 shield_addr 25565 2.
+Definition fo_route : route :=
+  mkRoute false false true false b127 (mkEp [127;0;0;1] 25566) [b127].
+Definition fo_client : endpoint := mkEp [10;0;0;7] 4000.
+
+Example eager_prepare_differs :
+  let p := enc_handshake_payload fo_hs in
+  let '(p', h') := fold_left (eager_step spec_mvh fo_route fo_client 1700000000) (r_failed fo_route) (p, fo_hs) in
+  lite_backend_stream spec_mvh fo_route fo_client 1700000000 p' h' [1;2;3] <>
+  failover_stream spec_mvh fo_route fo_client 1700000000 p fo_hs [1;2;3].
+Proof. vm_compute. discriminate. Qed.
